@@ -67,8 +67,8 @@ def law_configs(draw, classes=("metropolis", "gibbs", "pca", "hmc", "ensemble"))
             hi = [m_ + draw(st.floats(0.2, 2.5)) * s for m_, s in zip(mean, sd)]
             cfg["box_abs"] = [lo, hi]
     if cls == "hmc":
-        cfg["hmc"] = {"eps_log": draw(st.floats(-0.5, 0.25)), "mass": draw(st.sampled_from(["default", "scalar", "vector", "matrix"])),
-                      "mass_log": [draw(st.floats(-1.0, 1.0)) for _ in range(d)], "mass_corr": draw(st.sampled_from([0.0, 0.45, -0.45, 0.65, draw(st.floats(-0.68, 0.68))])), "grad": True}
+        cfg["hmc"] = {"eps_log": draw(st.floats(-0.5, 0.25)), "mass": draw(st.sampled_from(["default", "scalar", "vector", "matrix", "matrix"])),
+                      "mass_log": [draw(st.sampled_from([0.9, -0.9, draw(st.floats(-1.0, 1.0))])) for _ in range(d)], "mass_corr": draw(st.sampled_from([0.0, 0.45, -0.45, 0.65, draw(st.floats(-0.68, 0.68))])), "grad": True}
         if "box_abs" in cfg and cfg["hmc"]["mass"] == "matrix":
             cfg["hmc"]["mass"] = "vector"   # bounded + full-matrix mass is a recorded C07 finding: keep it out of the law experiments
     if cls == "ensemble":
@@ -221,6 +221,8 @@ def one_step(cfg, ctx, first_attempt):
     N = (6000 if ctx.tier == "quick" else 40000) if first_attempt else (40000 if ctx.tier == "quick" else 150000)
     if cls == "hmc":
         N = N // 2 if first_attempt else N // 4
+        if first_attempt and cfg["hmc"]["mass"] == "matrix":
+            N *= 5      # a momentum law that disagrees with the kinetic energy shows as a few-percent variance change after one trajectory
     if cls == "ensemble":
         N = int(N * 2.5) if first_attempt else N // 3
     if ctx.replay:
